@@ -133,6 +133,17 @@ class _Fail(Exception):
     pass
 
 
+def call_oracle(part, case, stats):
+    """The oracle of a part; an exception inside it (e.g. my readers choking on an output they were never given by the
+    unchanged program) is a failure of the case, shrunk and reported like any other - not a silent 'inconclusive'."""
+    try:
+        return part.oracle(case, stats)
+    except Exception as e:
+        tb = traceback.extract_tb(e.__traceback__)
+        where = "%s:%d" % (os.path.basename(tb[-1].filename), tb[-1].lineno) if tb else "?"
+        return ["oracle.exception: %s: %s (%s)" % (type(e).__name__, str(e)[:300], where)]
+
+
 def _hyp_worker(args):
     modname, partname, seed, n, known_tags = args
     from hypothesis import given, settings, seed as hseed, HealthCheck, Phase
@@ -142,7 +153,7 @@ def _hyp_worker(args):
     last = {}
 
     def body(case):
-        fails = part.oracle(case, stats)
+        fails = call_oracle(part, case, stats)
         fails = split_known(fails, known_tags, stats)
         stats.record(case, part.nontrivial(case),
                      part.sample(case) if part.sample else None)
@@ -199,7 +210,7 @@ def replay_file(mod, path, known_tags, stats=None):
         fn = getattr(mod, "replay_" + part.name)
         fails = fn(body["case"], st)
     else:
-        fails = part.oracle(body["case"], st)
+        fails = call_oracle(part, body["case"], st)
     return split_known(fails, known_tags, st)
 
 
